@@ -235,6 +235,8 @@ class MapGen:
         trigs = [self.trigger() for _ in range(self.opts.get("ntrig", rng.choice([0, 1, 2, 4])))]
         if self.cuwp_twins and self.loc_ids:
             trigs.append(self.trigger_referencing("cuwp", self.cuwp_twins))
+            # ... and one whose actions are the SAME action in everything but the slot referred to
+            trigs.append(self.trigger_referencing("cuwp", self.cuwp_twins, same_args=True))
         if self.opts.get("use_low_switches") and self.low_unnamed:
             # existing triggers use the LOWEST unnamed switch numbers: occupied slots that carry no name
             trigs.append(self.trigger_referencing("switch", self.low_unnamed))
@@ -411,18 +413,27 @@ class MapGen:
                         "_player_execution": {"_execution_flags": 0, "_player_flags": [1] + [0] * 26, "_current_action_index": 0}})
         return out
 
-    def trigger_referencing(self, codec, values):
-        """a trigger whose actions refer, one each, to the given slots through an action taking that codec"""
+    def trigger_referencing(self, codec, values, same_args=False):
+        """a trigger whose actions refer, one each, to the given slots through an action taking that codec
+        (same_args: one action type and one value per other argument for all of them)"""
         keys = [k for k in sorted(self.spec["actions"]) if any(c == codec for _, c, _, _ in self.spec["actions"][k]["args"])]
         acts = []
+        shared = None
         for v in values[:64]:
-            key = self.rng.choice(keys)
-            rec = dict.fromkeys(ACTION_FIELDS, 0)
-            rec["_action_id"] = key
-            for a, c, e, f in self.spec["actions"][key]["args"]:
-                rec[f] = v if c == codec else self.arg_value(c, e, ACTION_W[f])
-                if rec[f] is None:
-                    rec[f] = 0
+            if shared is None or not same_args:
+                key = self.rng.choice(keys)
+                rec = dict.fromkeys(ACTION_FIELDS, 0)
+                rec["_action_id"] = key
+                for a, c, e, f in self.spec["actions"][key]["args"]:
+                    rec[f] = v if c == codec else self.arg_value(c, e, ACTION_W[f])
+                    if rec[f] is None:
+                        rec[f] = 0
+                shared = rec
+            else:
+                rec = dict(shared)
+                for a, c, e, f in self.spec["actions"][rec["_action_id"]]["args"]:
+                    if c == codec:
+                        rec[f] = v
             acts.append(rec)
         acts += [dict.fromkeys(ACTION_FIELDS, 0)] * (64 - len(acts))
         return {"_conditions": [dict.fromkeys(COND_FIELDS, 0)] * 16, "_actions": acts,
